@@ -73,12 +73,18 @@ class StandardGeometry(BaseGeometry):
             t2 = (-b - np.sqrt(d)) / (2 * a)
 
         # intersections "behind" ray, set to inf to ignore
-        t1[t1 < 0] = np.inf
-        t2[t2 < 0] = np.inf
+        behind1 = t1 < 0
+        behind2 = t2 < 0
+        t1[behind1] = np.inf
+        t2[behind2] = np.inf
 
-        # find intersection points in z
-        z1 = rays.z + t1 * rays.N
-        z2 = rays.z + t2 * rays.N
+        # find intersection points in z (inf * 0 is nan for rays travelling
+        # perpendicular to the axis: ignored intersections stay at infinity)
+        with np.errstate(invalid='ignore'):
+            z1 = rays.z + t1 * rays.N
+            z2 = rays.z + t2 * rays.N
+        z1[behind1] = np.inf
+        z2[behind2] = np.inf
 
         # take intersection closest to z = 0 (i.e., vertex of geometry)
         t = np.where(np.abs(z1) <= np.abs(z2), t1, t2)
